@@ -538,6 +538,10 @@ theorem noop_removeM (s : State) (env : Env) (p : Str) : NoopM (removeM env p) s
     | some e => exact NeverErr.ite (NeverErr.bind (NeverErr.removeFile _) (fun _ => hjp3 ())) (hjp3 ())
   have hjp1 : ∀ r, NoopM (jp1 r) s := by
     intro r
+    apply NoopM.getEntry_bind
+    apply NoopM.ite
+    · intro _; exact NoopM.pure _ _
+    intro _
     apply NoopM.dirOf_bind
     intro _
     apply NoopM.getEntry_bind
